@@ -44,6 +44,11 @@ def event_of(f, bi, t):
     c = callee_of(t)
     if not c:
         return None
+    # a call inside a spliced generic helper: instantiate the helper's type parameters
+    sub = f.blocks[bi].get("subst") if bi < len(f.blocks) else None
+    if sub and c.get("args"):
+        pat = re.compile(r"\b(%s)\b" % "|".join(re.escape(k) for k in sorted(sub, key=len, reverse=True)))
+        c = dict(c, args=[pat.sub(lambda m: sub[m.group(1)], a) if isinstance(a, str) else a for a in c["args"]])
     name = c.get("name")
     tr = c.get("trait")
     if tr == BW:
